@@ -4,6 +4,7 @@ between the SEED-TABLE markers."""
 import json, os, re
 V = os.path.dirname(os.path.dirname(os.path.abspath(__file__)))
 rows = []
+per_round = {}
 n = own = anyc = conf = 0
 for sid in sorted(os.listdir(os.path.join(V, "seeded"))):
     mp = os.path.join(V, "seeded", sid, "meta.json")
@@ -24,9 +25,16 @@ for sid in sorted(os.listdir(os.path.join(V, "seeded"))):
     own += 1 if m["detected_by_own_property"] else 0
     anyc += 1 if m["fired"] else 0
     fired = ", ".join(m["fired"]) or "**none**"
-    rows.append("| %s | %s | %s | %s | %s |" % (sid, what, "yes" if m["confirmed"] else "NO", "yes" if m["detected_by_own_property"] else "**no**", fired))
-table = ["Seeded faults: %d kept, %d confirmed independently, %d detected by the check of the property they target, %d detected by at least one check (quick tier, seed 0)." % (n, conf, own, anyc), "",
-         "| id | change (first line of the sub-agent's notes) | confirmed | own check fires | checks that report a VIOLATION |", "|---|---|---|---|---|"] + rows
+    k = int(sid.split("-")[1])
+    rnd = 1 if k <= 2 else (3 if k >= 6 else 2)
+    per_round.setdefault(rnd, [0, 0, 0])
+    per_round[rnd][0] += 1
+    per_round[rnd][1] += 1 if m["detected_by_own_property"] else 0
+    per_round[rnd][2] += 1 if m["fired"] else 0
+    rows.append("| %s | %d | %s | %s | %s | %s |" % (sid, rnd, what, "yes" if m["confirmed"] else "NO", "yes" if m["detected_by_own_property"] else "**no**", fired))
+summary = "; ".join("round %d: %d seeds, %d caught by the check of their own property, %d by at least one check" % (r, v[0], v[1], v[2]) for r, v in sorted(per_round.items()))
+table = ["Seeded faults: %d kept, %d confirmed independently, %d detected by the check of the property they target, %d detected by at least one check (quick tier, seed 0). %s." % (n, conf, own, anyc, summary), "",
+         "| id | round | change (first line of the sub-agent's notes) | confirmed | own check fires | checks that report a VIOLATION |", "|---|---|---|---|---|---|"] + rows
 p = os.path.join(V, "DESIGN.md")
 s = open(p).read()
 s = re.sub(r"<!-- SEED-TABLE-BEGIN -->.*<!-- SEED-TABLE-END -->", "<!-- SEED-TABLE-BEGIN -->\n" + "\n".join(table) + "\n<!-- SEED-TABLE-END -->", s, flags=re.S)
